@@ -66,13 +66,15 @@ SignerShift(len) ==
 (* ---- streams for reconstruct_all ---- *)
 \* blob kinds: <<signer, length class>>; the class picks a boundary length
 BlobKinds == {"b0one", "b0two", "b1one", "b1two", "b0tiny", "b1three"}
-KindSigner(b) == b \in {"b1one", "b1two", "b1three"}
+KindSigner(b) == b \in {"b1one", "b1two", "b1three", "b1five"}
 KindLen(b) == CASE b = "b0one" -> FirstCap(FALSE)
                 [] b = "b0two" -> FirstCap(FALSE) + 1
                 [] b = "b1one" -> FirstCap(TRUE)
                 [] b = "b1two" -> FirstCap(TRUE) + 1
                 [] b = "b0tiny" -> 1
                 [] b = "b1three" -> FirstCap(TRUE) + ContCap + 1
+                [] b = "b0five" -> FirstCap(FALSE) + 3 * ContCap + 1
+                [] b = "b1five" -> FirstCap(TRUE) + 4 * ContCap
 Reserved == {"tx", "pfb", "primary_padding", "tail_padding", "parity"}
 Symbols == BlobKinds \cup Reserved
 RECURSIVE SeqsUpTo(_)
@@ -90,9 +92,22 @@ StreamShares(st) == IF st = <<>> THEN 0
                     ELSE (IF Head(st) \in BlobKinds THEN NShares(KindLen(Head(st)), KindSigner(Head(st))) ELSE 1)
                          + StreamShares(Tail(st))
 
+\* reserved-namespace shares INSIDE the share run of a multi-share blob: reconstruct_all ignores reserved
+\* shares wherever they are, so the expected result is the same blobs.  p = gap after the p-th share of
+\* the blob (0 = a reserved share in every gap); optionally a blob before and after.
+InsideKinds == {"b0two", "b1two", "b1three", "b0five", "b1five"}
+BlobRec(b) == <<KindLen(b), IF KindSigner(b) THEN 1 ELSE 0>>
+InsideCases == {[kind |-> "inside", pre |-> pre, b |-> b, r |-> r, p |-> p, post |-> post] :
+                  pre \in {<<>>, <<"b0one">>, <<"b1two">>}, post \in {<<>>, <<"b1one">>, <<"b0two">>},
+                  r \in Reserved, b \in InsideKinds, p \in 0..4}
+InsideOK(x) == x.p < NShares(KindLen(x.b), KindSigner(x.b))
+InsideBlobs(x) == [k \in 1..Len(x.pre) |-> BlobRec(x.pre[k])] \o <<BlobRec(x.b)>> \o [k \in 1..Len(x.post) |-> BlobRec(x.post[k])]
+InsideShares(x) == StreamShares(x.pre) + StreamShares(<<x.b>>) + StreamShares(x.post)
+                   + (IF x.p = 0 THEN NShares(KindLen(x.b), KindSigner(x.b)) - 1 ELSE 1)
+
 LayoutCases == {[kind |-> "layout", len |-> l, s |-> s] : l \in 1..MaxLen, s \in BOOLEAN}
 StreamCases == {[kind |-> "stream", st |-> st] : st \in Streams}
-Init == c \in LayoutCases \cup StreamCases
+Init == c \in LayoutCases \cup StreamCases \cup {x \in InsideCases : InsideOK(x)}
 Next == UNCHANGED c
 
 (* ---- invariants ---- *)
@@ -100,4 +115,8 @@ LayoutOK == c.kind = "layout" => RoundTrip(c.len, c.s) /\ Minimal(c.len, c.s) /\
 StreamOK == c.kind = "stream" =>
               /\ Len(BlobsOf(c.st)) = NBlobs(c.st)
               /\ StreamShares(c.st) >= Len(c.st)
+InsideStreamOK == c.kind = "inside" =>
+              /\ NShares(KindLen(c.b), KindSigner(c.b)) >= 2          \* there is a gap inside the run
+              /\ c.p >= 1 => c.p < NShares(KindLen(c.b), KindSigner(c.b))   \* never after the blob's last share
+              /\ Len(InsideBlobs(c)) = Len(c.pre) + 1 + Len(c.post)
 =============================================================================
